@@ -391,7 +391,7 @@ func GenScript(rt *rapid.T, p *Profile) *Script {
 		}
 	}
 	for i := 0; i < n; i++ {
-		if len(p.Fragments) > 0 && (sc.Cfg.InboundMTU == 0 || sc.Cfg.InboundMTU >= 1500) && rapid.IntRange(0, 39).Draw(rt, "crowd") == 0 {
+		if len(p.Fragments) > 0 && !p.SlowCB && (sc.Cfg.InboundMTU == 0 || sc.Cfg.InboundMTU >= 1500) && rapid.IntRange(0, 39).Draw(rt, "crowd") == 0 {
 			// a crowd of peers on one allocation: permissions for 40-150 distinct hosts, a dozen per request
 			c := rapid.IntRange(0, len(sc.Cfg.Clients)-1).Draw(rt, "crowdClient")
 			total := rapid.SampledFrom([]int{40, 63, 64, 65, 66, 100, 128, 129, 150}).Draw(rt, "crowdSize")
@@ -450,8 +450,18 @@ func genFragment(rt *rapid.T, p *Profile, cfg *Config) []Step {
 	switch rapid.SampledFrom(p.Fragments).Draw(rt, "fkind") {
 	case "perm":
 		pt := int(cfg.permTimeout().Seconds())
-		out = append(out, Step{Op: "CreatePermission", C: c, P: []int{peer}, Life: -1}, part(pt))
-		switch rapid.IntRange(0, 3).Draw(rt, "fviaBind") {
+		via := rapid.IntRange(0, 4).Draw(rt, "fviaBind")
+		if via == 4 {
+			// two permissions made by one request expire at one instant, and the refresh of one of
+			// them arrives at that very instant: two expiries and a request meet at the table
+			pair := [][]int{{peer, peer2}, {peer2, peer}}
+			out = append(out, Step{Op: "CreatePermission", C: c, P: rapid.SampledFrom(pair).Draw(rt, "ftiePair"), Life: -1})
+		} else {
+			out = append(out, Step{Op: "CreatePermission", C: c, P: []int{peer}, Life: -1}, part(pt))
+		}
+		switch via {
+		case 4:
+			out = append(out, Step{Op: "CreatePermission", C: c, P: []int{peer}, Life: -1, Rel: "tie"})
 		case 0:
 			out = append(out, Step{Op: "CreatePermission", C: c, P: []int{peer}, Life: -1})
 		case 1:
